@@ -14,6 +14,7 @@ var repoRoot = "/repo"
 
 // VC accumulates declarations, assumptions and obligations for one verified function.
 type VC struct {
+	envF    string // see envFailed
 	eng     *Engine
 	g       *Globals
 	fnName  string
@@ -57,6 +58,20 @@ type Obl struct {
 	Script  string
 	Agree   int
 	Clause  *Clause
+}
+
+// envFailed names the per-function boolean "the environment failed during this call": the context was cancelled (a
+// gchan send or request gave up) or a store returned an error. It only ever becomes known true; contracts use it as
+// envfailed() to say that a function reports failure for no other reason.
+func (vc *VC) envFailed() string {
+	if vc.envF == "" {
+		if vc.quiet > 0 {
+			// discovery pass: its declarations are rolled back, so do not cache the name
+			return vc.fresh("envfailed", sBool)
+		}
+		vc.envF = vc.fresh("envfailed", sBool)
+	}
+	return vc.envF
 }
 
 func (vc *VC) fresh(prefix, sort string) string {
